@@ -9,6 +9,22 @@ from .search import TYPES, members, tern
 REL = 1e-9
 
 
+
+INT_FIELDS = ('n_test', 'n_geos_max', 'n_pretest_max', 'n_designs')
+INT_RANGES = ('treatment_geos_range', 'control_geos_range')
+
+
+def ipar(case):
+  """The final parameters with integer fields as integers (cases may give them as integer-valued floats)."""
+  par = dict(case['par_final'])
+  for k in INT_FIELDS:
+    if par.get(k) is not None:
+      par[k] = int(par[k])
+  for k in INT_RANGES:
+    if par.get(k) is not None:
+      par[k] = tuple(int(v) for v in par[k])
+  return par
+
 def raw_elig(case):
   n = len(case['rows'])
   if case['elig'] is None:
@@ -31,7 +47,7 @@ def c01_legal(case, out, res):
   fails = []
   el = raw_elig(case)
   in_data = {str(g + 1) for g in range(len(case['rows']))}
-  par = case['par_final']
+  par = ipar(case)
   must = {g for g, r in el.items() if r[2] == 0 and g in in_data}
   for k, d in enumerate(res['designs']):
     T, C = set(d['T_ids']), set(d['C_ids'])
@@ -86,7 +102,7 @@ def fdiv(a, b):
 
 def c02_within(case, out, res, which):
   fails, skipped = [], 0
-  par = case['par_final']
+  par = ipar(case)
   sh = raw_shares(case)
   admitted = [out['geos'][i] for i in res.get('geo_index', [])]
   tot_adm = sum(sh[g] for g in admitted) if admitted else float('nan')
@@ -151,7 +167,7 @@ def feasible_space(case, out, reading):
   """All (tm, cm) over the admitted geos that are legal and within every constraint,
   computed from the raw eligibility/parameters and the fresh kernel tables.
   reading: 'exhaustive' (share against all geos in the data)."""
-  par = case['par_final']
+  par = ipar(case)
   n = out['n']
   gi = [out['geos'][i] for i in out['geo_index']]
   el = raw_elig(case)
@@ -209,7 +225,7 @@ def feasible_space(case, out, reading):
 
 def admissible_tsizes(case, out):
   """Treatment sizes the search may use: from the raw eligibility rows of the admitted geos."""
-  par = case['par_final']
+  par = ipar(case)
   gi = [out['geos'][i] for i in out['geo_index']]
   el = raw_elig(case)
   rows = [el[g] for g in gi]
@@ -226,7 +242,7 @@ def admissible_tsizes(case, out):
 def c03_optimal(case, out, res):
   """Brute force: no feasible, non-prunable design outside the result beats the worst returned one."""
   fails = []
-  par = case['par_final']
+  par = ipar(case)
   n = out['n']
   feas, skipped = feasible_space(case, out, 'exhaustive')
   if skipped:
@@ -300,7 +316,7 @@ def c03_optimal(case, out, res):
 
 
 def c13_greedy_within_exhaustive(case, out, res_g, res_e):
-  par = case['par_final']
+  par = ipar(case)
   if par.get('budget_range') or par.get('treatment_share_range'):
     return [], 'constraints-outside-scope'
   n = out['n']
@@ -327,7 +343,7 @@ def c04_diag(case, out, res, which):
   import numpy as np
   from matched_markets.methodology import tbrmmscore
   fails = []
-  par = case['par_final']
+  par = ipar(case)
   br = par.get('budget_range')
   for k, d in enumerate(res['designs']):
     dg, p, x, y = fresh_diag(case, out, d['T_ids'], d['C_ids'])
